@@ -135,8 +135,8 @@ func blsDevLines[
 		if neg {
 			D = gen.Neg()
 		}
-		var pop *bls.ProofOfPossession[SG, SGFE, PK, PKFE, E, S]
-		out, err := bls.NewSignature(s.Value().Op(D), pop)
+		// only the point changes: whatever else the component carries (a proof of possession attached to it) is kept
+		out, err := bls.NewSignature(s.Value().Op(D), s.Pop())
 		if err != nil {
 			panic(err)
 		}
